@@ -74,10 +74,13 @@ struct Obs
     uint32_t ifid{0};
     uint16_t vendor{0};
     uint8_t flags{0};
+    uint8_t flagQuery{0};  // bit i: Packet::getCommonFlag(mask i) for recalc, insync, seg, diOnIf, overflow, errorInPayload
     uint8_t segType{0};
     uint32_t plen{0};
     Bytes payload;
     Typed typed;
+    Bytes rawCmpHeader;  // Packet::getRawCmpHeader into fresh (never cleared) memory
+    Bytes rawMsgHeader;  // Packet::getRawMessageHeader into fresh (never cleared) memory
     std::string viewErr;  // C03: first accessor whose view leaves the payload ("class.accessor"), empty if none
 };
 
@@ -85,6 +88,11 @@ using PacketRef = std::shared_ptr<void>;
 
 // called right before every library API call made through this adapter (C20: stack scribbler)
 void setPreCallHook(void (*hook)());
+
+// TECMP decoding runs under a global C++ locale with digit grouping and a decimal comma (restored after each call)
+void setHostileLocale(bool on);
+// some packets handed to the encoder are moved-from objects re-used after setPayload only (C20 runs)
+void setMovedFromReuse(bool on);
 
 Obs observe(const PacketRef& p, bool typedViews = true);
 // digest over every getter and payload byte (used to prove a packet owns its data)
@@ -122,8 +130,18 @@ public:
     uint16_t dev() const;
     uint8_t stream() const;
     uint16_t counter() const;
+    // object lifecycle event (copy / move / assign / swap, see adapter.cpp); the logical state must be unchanged
+    void lifecycle(int how);
+    std::unique_ptr<Enc> clone() const;  // a copy-constructed encoder in a new wrapper
     // mode: 0 vector<Packet>, 1 vector<shared_ptr<Packet>>, 2 single packet (batch of one), 3 std::list<Packet>
     std::vector<Bytes> encode(const std::vector<MsgSpec>& batch, size_t minBytes, size_t maxBytes, int mode);
+    // packets that came out of a decoder, encoded again (mode 0 copies in a vector, 1 the very shared_ptr objects, 2 single)
+    // an encode call over the same packets that an exception out of the caller's iterator aborts at packet throwAt
+    // (where: 0 on dereference, 1 on increment); true if it was aborted
+    bool encodeAborted(const std::vector<MsgSpec>& batch, size_t minBytes, size_t maxBytes, size_t throwAt, int where);
+    // encode calls in which a forked copy of the encoder (lifecycle 9) returned other frames than the original
+    uint64_t shadowDiverged() const;
+    std::vector<Bytes> encodeRefs(const std::vector<PacketRef>& batch, size_t minBytes, size_t maxBytes, int mode);
 
 private:
     struct Impl;
@@ -150,6 +168,14 @@ public:
     Dec(const Dec&) = delete;
     Dec& operator=(const Dec&) = delete;
     std::vector<PacketRef> decode(const uint8_t* data, size_t size);
+    void lifecycle(int how);
+    std::unique_ptr<Dec> clone() const;
+    // non-zero: returned packets are (deterministically, about half of them) handed on as copies / moved / assigned objects
+    void setPacketLife(uint64_t seed);
+    // basic-block edges of library code the last decode call itself executed (without the harness's copies of its results)
+    uint64_t lastCallEdges() const;
+    // decode calls in which a forked copy of the decoder (lifecycle 9) returned something else than the original
+    uint64_t shadowDiverged() const;
     // C17 hook (needs the library built with ASAM_CMP_LIB_VERIF); sorted
     static bool hasPendingHook();
     std::vector<Pending> pending() const;
@@ -158,6 +184,10 @@ public:
 private:
     struct Impl;
     Impl* d;
+    uint64_t lifeSeed{0};
+    uint64_t calls{0};
+    uint64_t shadowDiffs{0};
+    uint64_t lastEdges{0};
 };
 
 // ------------------------------------------------------------------ status tracker
@@ -169,9 +199,12 @@ public:
     Stat(const Stat&) = delete;
     Stat& operator=(const Stat&) = delete;
     void update(const PacketRef& p);
+    void lifecycle(int how);
+    std::unique_ptr<Stat> clone() const;
     void clear();
     void removeDev(uint16_t dev);
     bool removeIf(uint16_t dev, uint32_t ifid);  // false if the device is unknown (nothing called)
+    uint64_t digestAll() const;  // digest of every stored packet (untyped getters, raw bytes) and the index structure
     size_t devCount() const;
     size_t idxDev(uint16_t dev) const;
     Obs devPacket(size_t i, bool viaConst) const;
@@ -225,6 +258,8 @@ public:
     Builder& operator=(const Builder&) = delete;
     void setHeaderFields(const BuildFields& f);
     void setData(const BuildData& d);
+    // copy assignment between two payload objects of the same class
+    void assignFrom(const Builder& other);
     Bytes raw() const;
     Typed typed(std::string& viewErr) const;
     bool selfValid() const;  // T::isValidPayload(own bytes)
